@@ -19,6 +19,9 @@ var (
 	// ErrUnknownOperator is returned when an operator cannot
 	// be resolved.
 	ErrUnknownOperator = fmt.Errorf("%w: unknown operator", ErrInternal)
+	// ErrUnsupportedNode is returned when the AST contains a node the
+	// compiler cannot translate yet.
+	ErrUnsupportedNode = fmt.Errorf("%w: unsupported node", ErrInternal)
 	// ErrUnsupportedExpression is returned when an expression is not
 	// supported by the compiler, this indicates an error in the compiler
 	// itself, as all parseable evy expressions should be supported.
@@ -119,6 +122,10 @@ func (c *Compiler) Compile(node parser.Node) error {
 		if err := c.emit(OpMap, len(node.Pairs)); err != nil {
 			return err
 		}
+	case *parser.EmptyStmt:
+		// nothing to emit
+	default:
+		return fmt.Errorf("%w: %T", ErrUnsupportedNode, node)
 	}
 	return nil
 }
